@@ -87,8 +87,8 @@ def mkind(members):
 def clim_case(ctx, members, x, t, z, tag, carrier="dt64ns", as_object=False) -> None:
     rng = ctx.rng
     cfg = to_call(rng, members, as_object)
-    kw = {"config": cfg, "inp": gen.arr(x), "tinp": gen.times(t, carrier),
-          "zinp": gen.arr(z) if z is not None else gen.arr([None] * len(x))}
+    kw = {"config": cfg, "inp": gen.carried(rng, x, poisons=(0.0, 3.0, 100.0, 10.0)), "tinp": gen.times(t, carrier),
+          "zinp": gen.carried(rng, z, poisons=(0.0, 5.0, 10.0, 50.0)) if z is not None else gen.arr([None] * len(x))}
     o, _ = client.expect(ctx, "C08", "qartod.climatology_test", kw,
                          lambda: models.climatology(members, x, t, z),
                          logical={"members": members, "x": x, "t": t, "z": z, "time_carrier": carrier,
